@@ -259,6 +259,10 @@ func (pm *ProtocolManager) handleMsg(p *peer) error {
 		if last == nil {
 			last = pm.chainman.CurrentBlock()
 			request.Amount = last.Height - request.Number + 1
+			// the recomputed amount is limited as well
+			if request.Amount > uint64(downloader.MaxHashFetch) {
+				request.Amount = uint64(downloader.MaxHashFetch)
+			}
 		}
 		if last.Height < request.Number {
 			return p.SendBlockHashes(nil)
